@@ -33,7 +33,7 @@ STRINGS = ["\"hi\"", "\"\"", "\"a b\"", "\"日本\"", "\"q\\\"uote\"", "r\"raw\"
 RANGES = ["1..5", "1..=5", "..5", "..=5", "1..", "-3..=3", "'a'..='z'", "0.5..1.5"]
 REGEXES = ["r\"^a\"", "\"a+\"", "r\"\\d+\"", "r#\"x\"y\"#"]
 LIKES = ["pat", "mk(1)", "&re", "self.p", "Pat { n: 1 }"]
-CLOSURES = ["|x| x > 5", "move |x| ok(x)", "|x: &i32| *x > 1", "|v| { v.len() > 0 }", "|_| true"]
+CLOSURES = ["|cl_x| cl_x > 5", "move |cl_x| ok(cl_x)", "|cl_x: &i32| *cl_x > 1", "|cl_v| { cl_v.len() > 0 }", "|_| true"]
 CMP_OPS = ["<", "<=", ">", ">=", "==", "!="]
 STRUCT_PATHS = ["S", "m::S", "E::V", "crate::a::B"]
 ENUM_PATHS = ["Some", "Ok", "Err", "E::T", "a::b::C"]
